@@ -422,6 +422,16 @@ func TestVerif_C04_CheckingDeadline(t *testing.T) {
 		if got := s.ag.state(); got != ConnectionStateFailed {
 			st.Fail(rt, "C04/deadline/not-failed-after-deadline", "%s: state %s %s after the first tick (deadline %s)", desc, got, time.Since(t0b), deadline)
 		}
+		// Failed is reported only after pairs, candidates and outstanding transactions were released
+		if v := c06Take(s.ag.a); len(v.pairs) != 0 || len(v.locals) != 0 || len(v.remotes) != 0 || v.selected != nil || v.pending != 0 || v.byIDLen != 0 {
+			st.Fail(rt, "C04/deadline/failed-with-residue", "%s: Failed by the checking deadline left pairs=%d locals=%d remotes=%d pending=%d byID=%d behind",
+				desc, len(v.pairs), len(v.locals), len(v.remotes), v.pending, v.byIDLen)
+		}
+		for _, sk := range s.ag.allSocks {
+			if !sk.isClosed() {
+				st.Fail(rt, "C04/deadline/failed-with-residue", "%s: socket %s still open in the Failed state", desc, sk.name())
+			}
+		}
 		if !withRestart {
 			return
 		}
